@@ -207,6 +207,7 @@ def evalRT (st : StructTable) (nf : Nat) (ρ : Store) : ForkAssign → Ty → RE
     .obj ((ρ.idx c f).map fun ix => (ix.keyText, evalRT st nf ρ (fset f c ix) ⟨t.base, 0, t.mapDim - 1⟩ e))
   | f, t, .disabled d v =>
     if isTrue (evalRT st nf ρ f ⟨"bool", 0, 0⟩ d) then .null else evalRT st nf ρ f t v
+  | f, t, .fork c ix e => evalRT st nf ρ (fset f c ix) t e
 def evalRTList (st : StructTable) (nf : Nat) (ρ : Store) : ForkAssign → Ty → List RExp → List J
   | _, _, [] => []
   | f, t, e :: es => evalRT st nf ρ f t e :: evalRTList st nf ρ f t es
